@@ -11,9 +11,9 @@ from . import common as C
 SHARDS = 10
 
 
-def _worker(fam, seed, lo, hi, shard, tier):
+def _worker(fam, seed, lo, hi, shard, tier, attempt=0):
     out = os.path.join(C.OUT, "%s-%d-%d.log" % (fam.replace(":", "_"), seed, shard))
-    env = dict(C.GOENV, VERIF_FAMILY=fam, VERIF_SEED=str(seed), VERIF_TIER=tier)
+    env = dict(C.GOENV, VERIF_FAMILY=fam, VERIF_SEED=str(seed), VERIF_TIER=tier, VERIF_RACE_ATTEMPT=str(attempt))
     crashes, logs = [], []
     cur, part = lo, 0
     while cur < hi and len(crashes) < 3:
@@ -226,6 +226,19 @@ def mon_ctx_outcome(sc):
                 if not (by_ctx or by_stop or by_peer):
                     return "Call %d returned context %s but its context did not end that way, the client was not stopped " \
                            "and the peer sent no such error" % (n, want)
+            if r[0] == "batch" and r[1] != "-" and o["ids"]:
+                # the same for the entries of a Batch (they keep the wire form of the error)
+                for e in r[1].split(";"):
+                    q = e.split(",")
+                    if len(q) < 3 or q[1] != "E" or q[2] not in ("-32097", "-32096"):
+                        continue
+                    want = "cancel" if q[2] == "-32097" else "deadline"
+                    by_ctx = o["ctxend"] is not None and o["ctxend"][0] < ln and o["ctxend"][1] == want
+                    by_stop = want == "cancel" and any(c < ln for c in closes)
+                    by_peer = any(p.startswith("E,%s," % q[2]) for (l2, p) in fed.get(q[0], []) if l2 < ln)
+                    if not (by_ctx or by_stop or by_peer):
+                        return "Batch %d: the entry for id %s completed with context %s but the context of the Batch did not " \
+                               "end that way, the client was not stopped and the peer sent no such error" % (n, q[0], want)
         if o["kind"] != "close" and stops and o["line"] > stops[0]:
             if o.get("sent_ok") is not None:
                 return "operation %d was issued after the client stopped and still transmitted a request" % n
@@ -258,11 +271,18 @@ def mon_hooks(sc):
         for (ln, r) in o["rets"]:
             if r[0] == "call" and r[1].startswith("R,"):
                 return "OnCancel invoked for request id %s although Call %d completed with the peer's result" % (i, sent[i])
+            if r[0] == "call" and r[1].startswith("E,") and r[1].split(",")[1] not in ("-32097", "-32096", "-32603") \
+                    and any(p == r[1] for (_, p) in fed.get(i, [])):
+                # the watcher only ever writes the context's error code or InternalError: this one is the peer's
+                return "OnCancel invoked for request id %s although Call %d completed with the peer's error reply" % (i, sent[i])
             if r[0] == "batch" and r[1] != "-":
                 for e in r[1].split(";"):
                     q = e.split(",")
                     if q[0] == i and q[1] == "R":
                         return "OnCancel invoked for request id %s although its Batch entry completed with the peer's result" % i
+                    if q[0] == i and q[1] == "E" and q[2] not in ("-32097", "-32096", "-32603") \
+                            and any(p == ",".join(q[1:]) for (_, p) in fed.get(i, [])):
+                        return "OnCancel invoked for request id %s although its Batch entry completed with the peer's error reply" % i
     oncancel_cfg = sc["cfg"].split("\t")[2] == "1"
     if oncancel_cfg:
         # a Call that ended by its own context (no peer error of that code fed) must have had OnCancel
@@ -274,10 +294,54 @@ def mon_hooks(sc):
                     if not by_peer and sc["complete"] and cancels.get(o["ids"][0], 0) != 1:
                         return "Call %d ended by its context but OnCancel ran %d times for id %s" % (
                             n, cancels.get(o["ids"][0], 0), o["ids"][0])
+                if r[0] == "batch" and r[1] != "-" and o["ids"]:
+                    for e in r[1].split(";"):
+                        q = e.split(",")
+                        if len(q) < 3 or q[1] != "E" or q[2] not in ("-32097", "-32096"):
+                            continue
+                        by_peer = any(p.startswith("E,%s," % q[2]) for (l2, p) in fed.get(q[0], []))
+                        if not by_peer and sc["complete"] and cancels.get(q[0], 0) != 1:
+                            return "Batch %d: the entry for id %s ended by the context but OnCancel ran %d times for it" % (
+                                n, q[0], cancels.get(q[0], 0))
     if len(stops) > 1:
         return "OnStop invoked %d times" % len(stops)
     if sc["complete"] and len(stops) != 1:
         return "OnStop invoked %d times although the client was closed" % len(stops)
+    return None
+
+
+def mon_quiescent_returned(sc):
+    """C05, racing scenarios ("snap" = a quiescent point with no goroutine held back by the harness): at a
+    quiescent point an operation has returned if its context ended, if the client stopped after it was issued,
+    or if the peer sent a well-formed reply for each of its request ids after the request was transmitted
+    ("nothing blocks once one of these has happened")."""
+    if sc["policy"] != "race":
+        return None
+    ops, fed, stops = _parse(sc)
+    good = {}     # idhex -> lines of well-formed replies (result or error object, no defect) fed for it
+    for ln, l in enumerate(sc["lines"]):
+        f = l.split("\t")
+        if f[0] == "env" and f[1] == "feed" and f[2] == "msg":
+            for m in _members(f[4]):
+                if m["method"] == "-" and m["err"] == "-" and (m["error"] != "-" or m["result"] != "-"):
+                    good.setdefault(m["id"], []).append(ln)
+    for ln, l in enumerate(sc["lines"]):
+        if not l.startswith("snap\t"):
+            continue
+        for n, o in sorted(ops.items()):
+            if o["kind"] == "close" or o["line"] > ln or any(rl < ln for (rl, _) in o["rets"]):
+                continue
+            if o["ctxend"] is not None and o["ctxend"][0] < ln:
+                return "operation %d (%s) has not returned at a quiescent point (line %d) although its context ended (line %d)" % (
+                    n, o["kind"], ln, o["ctxend"][0])
+            if stops and o["line"] < stops[0] < ln:
+                return "operation %d (%s) has not returned at a quiescent point (line %d) although the client stopped (line %d)" % (
+                    n, o["kind"], ln, stops[0])
+            if o.get("sent_ok") and o["ids"] and all(
+                    any(o["sent_line"] < fl < ln for fl in good.get(i, [])) for i in o["ids"]):
+                return "operation %d (%s) has not returned at a quiescent point (line %d) although the peer answered %s after " \
+                       "the request was transmitted (line %d)" % (n, o["kind"], ln, "its id" if len(o["ids"]) == 1 else "all its ids",
+                                                                  o["sent_line"])
     return None
 
 
@@ -299,8 +363,8 @@ def mon_faults(sc):
 
 
 MONITORS = {
-    "cli:c04": [mon_faults, mon_ids_fresh, mon_reply_matches, mon_return_once],
-    "cli:c05": [mon_faults, mon_return_once, mon_ctx_outcome, mon_hooks, mon_reply_matches],
+    "cli:c04": [mon_faults, mon_ids_fresh, mon_reply_matches, mon_return_once, mon_quiescent_returned],
+    "cli:c05": [mon_faults, mon_return_once, mon_ctx_outcome, mon_hooks, mon_reply_matches, mon_quiescent_returned],
     "cli:c10": [mon_faults, mon_return_once],
 }
 
@@ -453,7 +517,11 @@ def judge_logs(ctx, res, fam, logs, crashes):
     res.samples = samples
     res.extra.update(schedule_policies=policies, log_item_distribution=kinds, return_outcomes=outcomes,
                      scenarios_rejected=len(rejected), worker_crashes=len(crashes), max_model_states=maxstates,
-                     modes="S (scheduled at the cli.* verif hook points: fifo = quiescent stepping, random = seeded schedules)",
+                     racing_scenarios=policies.get("race", 0),
+                     modes="S (scheduled at the cli.* verif hook points: fifo = quiescent stepping, random = seeded schedules); "
+                           "R (policy race: no scheduler, hook points and the client's Logger yield pseudo-randomly, actions issued "
+                           "back to back without quiescence, half on one processor and half in parallel; judged by the monitors, "
+                           "crash / hang / leak detection, not by model acceptance)",
                      exhaustive_families=("thorough tier: scenarios 0..220 of cli:c04 enumerate every permutation and every partition "
                                  "into consecutive records of the replies to 1..4 calls") if fam == "cli:c04" else "")
 
@@ -466,5 +534,19 @@ def replay(ctx, res, fam):
     idx = int(rp.get("idx", 0))
     seed = int(rp.get("seed", ctx["seed"]))
     ctx = dict(ctx, seed=seed)
-    logs, crashes = _worker(fam, seed, idx, idx + 1, 99, ctx["tier"])
+    # a racing scenario is not deterministic: up to 20 attempts (each with another perturbation), the first
+    # failing one is reported
+    attempts = 0
+    for attempt in range(20):
+        attempts += 1
+        logs, crashes = _worker(fam, seed, idx, idx + 1, 99, ctx["tier"], attempt)
+        racing, failing = False, bool(crashes)
+        for lp in logs:
+            if os.path.exists(lp):
+                for sc in split_scenarios(lp):
+                    racing = racing or sc["policy"] == "race"
+                    failing = failing or any(m(sc) for m in MONITORS.get(fam, []))
+        if failing or not racing:
+            break
     judge_logs(ctx, res, fam, logs, crashes)
+    res.extra["replay_attempts"] = attempts
